@@ -4,6 +4,6 @@ CONSTANTS
   Ops <- AllOps
   DayPatterns <- PatternsStd
   WrongBase = FALSE
-  SpanShapes = {3, 4, 5}
+  SpanShapes = {3, 4, 5, 6}
 INVARIANTS EmitMix
 CHECK_DEADLOCK FALSE
